@@ -349,8 +349,18 @@ def play_hand(tid: int, spec: dict, rng: random.Random, pol: Policy, max_steps=4
         k += 1
         probes, psame = [], True
         if rng.random() < pol.probe_every:
-            probes, psame = play.probes(st, probe_universe(st, rng, pol.probe_level), werr)
-        moves = legal_moves(st, rng, pol, werr)
+            try:
+                uni = probe_universe(st, rng, pol.probe_level)
+            except Exception as e:  # noqa: BLE001
+                steps.append(play.probe_only([{'op': 'no_operate', 'a': NOARGS, 'r': False, 'x': 'query raised ' + type(e).__name__, 'v': ''}]))
+                break
+            probes, psame = play.probes(st, uni, werr)
+        try:
+            moves = legal_moves(st, rng, pol, werr)
+        except Exception as e:  # noqa: BLE001 - one of the engine's own queries raised while the driver was choosing a move
+            steps.append(play.probe_only(probes + [{'op': 'no_operate', 'a': NOARGS, 'r': False, 'x': 'query raised ' + type(e).__name__, 'v': ''}],
+                                         psame))
+            break
         if not moves:
             steps.append(play.probe_only(probes, psame))
             break
